@@ -110,6 +110,14 @@ def gen_c01(tier, seed):
         add(symobs.in_container(call('make', ['12', '34', '5']), kind))
         add(symobs.in_container(call('make_micro', ['1', '2']), kind))
         add(symobs.in_container(call('make', ['single part']), kind))
+    # a requested mode for the whole call together with parts that override it: the override also decides the encoding policy of the part
+    # (global hanzi = GB2312 for the hanzi parts only; a byte part without encoding is ISO-8859-1 / Shift JIS / UTF-8 as always)
+    for txt in ('\xe9', 'abc\xe4', '\u4e2d\u6587', '\u4e66', '\xc4\u20ac', 'plain'):
+        add(call('make', [(txt, 4), '\u4e66\u8bfb'], mode='hanzi'))
+        add(call('make_qr', [('\u4e66\u8bfb', 13), (txt, 4)], mode='hanzi'))
+        add(call('make', [(txt, 4)], mode='hanzi', micro=False))
+        add(call('make', [(txt, 4), ('12', 1)], mode='byte'))
+        add(call('make', [('12', 1), (txt, None)], mode='byte', micro=False))
     # falsy-looking contents are contents: 0, '0', a NUL byte, a blank
     for c in (0, '0', b'0', b'\x00', ' ', [0, 'A'], ['0', 0], [0], 10 ** 40, '00', b'\x00\x00'):
         for kw in ({}, {'micro': False}, {'error': 'M'}, {'version': 1, 'mask': 0}, {'version': 'M2', 'mask': 0} if not isinstance(c, list) and c not in (b'\x00', b'\x00\x00', ' ', 10 ** 40) else {'mask': 0}):
@@ -711,6 +719,15 @@ def run_c06(rep, tier):
               call('make_sequence', gen.digits(r, 200), version=2, error='M'), call('make_sequence', gen.latin1(r, 300), symbol_count=5, error='Q')):
         obs += symobs.observe_sequence_symbols(c, props=['C06'])
         nseq += 1
+    # many short sequences: the second and later symbols are evaluated like the first one (nothing of the previous symbol is left in the
+    # working matrices); the evaluation of small symbols is sensitive to single modules
+    for i in range(40 if tier == 'quick' else 300):
+        k = 2 + i % 3
+        v = 1 + i % 2
+        n = max(k, (T.max_chars(v, 'L', 'byte', extra=20) * k * (4 + i % 5)) // 9)
+        c = call('make_sequence', gen.latin1(r, n) if i % 4 else gen.alnum(r, n), version=v, error='L') if i % 3 else call('make_sequence', gen.latin1(r, n), symbol_count=k)
+        obs += symobs.observe_sequence_symbols(c, props=['C06'])
+        nseq += 1
     rep.evaluations += nseq
     note_refusals(rep, obs)
 
@@ -803,6 +820,15 @@ def run_c13(rep, tier):
     sess = gen.same_capacity_sessions(call, gen.rng(common.seed(), 'C13', 'session'), tier == 'quick')
     rep.evaluations += len(sess)
     obs += symobs.observe_many(sess, props=['C13'], procs=1)
+    # the symbols of sequences (each boosted on its own): chunks of unequal length on both sides of a level boundary
+    rs = gen.rng(common.seed(), 'C13', 'seq')
+    nseq = 0
+    for n in range(20, 64, 1 if tier == 'thorough' else 2):
+        for c in (call('make_sequence', gen.digits(rs, n), version=1), call('make_sequence', gen.digits(rs, n // 2 + 1), symbol_count=2),
+                  call('make_sequence', gen.latin1(rs, n // 2), symbol_count=2 + n % 2, error='L')):
+            obs += symobs.observe_sequence_symbols(c, props=['C13'])
+            nseq += 1
+    rep.evaluations += nseq
     note_refusals(rep, obs)
 
     def key(o, v):
